@@ -2,6 +2,27 @@
 """Regenerates MANIFEST.json from registry.py (single source of truth for what is claimed)."""
 import json, subprocess
 from registry import PROPS
+TECHNIQUE = {
+ "C01": "Lean 4 proof (kernel-checked): the classifier rule table as equality of response lists over the dispatch model, for all worlds, peers, datagrams and histories; model family tied to /repo by probed defect flags + differential correspondence on real datagrams; SPEC monitor on the outbound trace of all peers",
+ "C02": "Lean 4 proof: refinement of the update-engine model to the cmdOption rules (Spec.KV) for all shapes, lists and histories; tables of all 87 list types regenerated from /repo with theorems decided over them; differential correspondence on every list type + SPEC monitor",
+ "C03": "Lean 4 proof: the write gate as a function of the current registry, over all histories of bind/unbind/disconnect/entity removal (c03_follows_registry); differential correspondence on real datagrams + SPEC monitor (data digests, notifications, events)",
+ "C04": "Lean 4 proof: protection / all-or-nothing clauses on the flagged update-engine and heap models per engine path, refutation witnesses for the paths that stay defective; differential correspondence incl. metamorphic twin stores + SPEC monitor",
+ "C05": "Lean 4 proof for the header layer (exact characterisation of crashing datagrams per family member, totality for the repaired member) and for still-serves / node-management-present; exhaustive 10 080-datagram grid model-predicted; structured mutator and byte stream as monitored exploration (partial proof, stated)",
+ "C06": "Lean 4 proof: remote tree = announcements applied in order (content level, all histories), events = symmetric difference, exact cascade; differential correspondence on real discovery messages + independent Spec.Tree monitor",
+ "C07": "Lean 4 proof: discovery reply refines the declared tree over all histories, notifications per subscriber, fresh numbers, one feature per type and role over all interleavings (event-sourced); regenerated critical-section facts of entity_local.go; schedule-driven correspondence through yield hooks",
+ "C08": "Lean 4 proof: grant conditions, exact delete, distinct ids, per-peer lists and exactly-once fan-out over all histories on the registry family (incl. object-identity model); differential correspondence on real node-management calls + SPEC monitor",
+ "C09": "Lean 4 proof: at most one binding per server feature over all histories and all event lists (event-sourced check/insert), exact delete; all interleavings of 2-3 requests driven through the AddBinding.checked yield hook",
+ "C10": "Lean 4 proof: teardown removes exactly the dropped peer's / entity's entries, silence afterwards, other peers unchanged, over all histories incl. interleaved per-entity passes; fault enumeration at every position and at removal events (core-level handler injection)",
+ "C11": "Lean 4 proof on an explicit heap model of backing-array sharing: snapshot stability along replace/merge histories, refutation witnesses for the in-place paths; differential correspondence with every handle retained and re-read",
+ "C12": "Lean 4 proof: per-write automaton refinement over all event lists (exactly one outcome, applied iff unanimous in time, independence); schedule-driven correspondence with real timers through the ApproveOrDenyWrite yield hook",
+ "C13": "Lean 4 proof: counter uniqueness over all interleavings (event-sourced), cache invariant and MODEL |= SPEC monitor over all histories; constants and critical-section facts regenerated from send.go; differential correspondence on Sender and through the stack",
+ "C14": "Lean 4 proof: exactly-once / only-own-message / duplicate-refused / result callbacks over all event lists; differential correspondence on real reply/result datagrams from two peers + SPEC monitor",
+ "C15": "Lean 4 proof: exactly-once, core-before-application, nothing-after-unsubscribe, re-entrancy in a lock-aware model, over all event lists; lock-region facts of events.go regenerated; differential correspondence incl. queued-publisher schedules; concurrent monitor under the race detector",
+ "C16": "Lean 4 proof: single stream / no double close over all event lists, period arithmetic, counter order, stop finality; schedule-driven correspondence through the start/stop yield hooks; live real-time monitor (real-time clauses partial, A-time)",
+ "C18": "Lean 4 proof: table theorems decided (decide +kernel) over the function factory, CmdType/FilterType tags and the 1 470-type JSON schema regenerated from /repo; generic JSON decode(encode v) theorem instantiated for every schema type; exhaustive 127 functions x 12 shapes correspondence",
+ "C19": "Lean 4 proof: binary64 as exact integer arithmetic; rounding relation functional; scaled-number round trip exact for all |k| < 2^50, d <= 4; duration arithmetic by omega; bit-exact correspondence on an exhaustive decimal grid; layout tables regenerated",
+ "C20": "Lean 4 proof: use-case registry refines the declared map over all histories; every interleaving of the locked cycles equals a sequentialisation in lock order; regenerated lock facts; schedule-driven correspondence through the UseCase.copied yield hook",
+}
 ids = [json.loads(l)["id"] for l in open("properties.jsonl")]
 hooks_commits = subprocess.run("git -C /repo log --format=%H --grep='^verif:'", shell=True, capture_output=True, text=True).stdout.split()
 man = {
@@ -10,7 +31,7 @@ man = {
     "hooks": {
         "guard": "verif",
         "enable": "go build -tags verif (the harness under /verif/go is always built with -tags verif against /repo through a replace directive)",
-        "baseline_off_cmd": "cd /repo && GOFLAGS=-mod=mod go test -vet=off -count=1 -timeout 25m ./...",
+        "baseline_off_cmd": "cd /repo && go test -mod=mod -json -vet=off -count=1 -timeout 25m ./...",
         "source_commits": hooks_commits,
         "add_only": True,
     },
@@ -34,7 +55,7 @@ for pid in ids:
             "engine": "lean-proofs + correspondence-harness",
             "level_claimed": {"category": "proof", "text": P["level_text"], "design_ref": P.get("design_ref", "DESIGN.md §8 " + pid)},
             "level_note": P["level_note"],
-            "technique": P.get("technique", "Lean 4 theorems over an executable model; model tied to /repo by differential correspondence run on every check"),
+            "technique": P.get("technique") or TECHNIQUE.get(pid, "Lean 4 theorems over an executable model; model tied to /repo by differential correspondence run on every check"),
         })
     else:
         reason = PROPS.get(pid, {}).get("na_reason", "check not built yet in this round (model and theorems exist in design/appendix-B; no registered command)")
